@@ -288,7 +288,24 @@ TypeOK ==
 DValid(d) == d.ex /\ d.hdr.k = "full" /\ d.hdr.sum # BadSum
              /\ Len(d.data) >= d.hdr.size /\ SubSeq(d.data, 1, d.hdr.size) = d.hdr.sum
 
-(* dd: durable data cells, p: new payload, nold: size field of the old (valid) header, else 0 *)
+(* dd: durable data cells, p: new payload, nold: size field of the old (valid) header, else 0. *)
+(* Per sector s (cells lo..hi of the new payload):                                              *)
+(*   maxBad  = last cell where the durable image does not already hold the new value (0: none)  *)
+(*   badZ    = some cell differs from what an untouched sector shows (old cell, or zero beyond  *)
+(*             the old end)                                                                     *)
+(*   minDiff = first cell, within both payloads, where old and new differ (Inf: none)           *)
+(* The scans stop at the first hit, so a summary costs O(n) at worst and O(#sectors) for        *)
+(* unrelated contents.                                                                          *)
+RECURSIVE LastBad(_, _, _, _), FirstDiff(_, _, _, _)
+LastBad(dd, p, j, lo) ==
+    IF j < lo THEN 0
+    ELSE IF j > Len(dd) \/ dd[j] # p[j] THEN j
+    ELSE LastBad(dd, p, j - 1, lo)
+FirstDiff(dd, p, j, hi) ==
+    IF j > hi THEN Inf
+    ELSE IF dd[j] # p[j] THEN j
+    ELSE FirstDiff(dd, p, j + 1, hi)
+
 Summary(dd, p, nold) ==
     LET Ld == Len(dd)
         n  == Len(p)
@@ -296,12 +313,9 @@ Summary(dd, p, nold) ==
     IN [s \in 0..Sec(Max({n, 1})) |->
           LET lo == FirstPos(s)
               hi == Min({LastPos(s), n})
-              bad  == { j \in lo..hi : j > Ld \/ dd[j] # p[j] }
-              badz == { j \in lo..hi : IF j <= Ld THEN dd[j] # p[j] ELSE p[j] # Z }
-              dif  == { j \in lo..Min({hi, m}) : dd[j] # p[j] }
-          IN [maxBad  |-> IF bad = {} THEN 0 ELSE Max(bad),
-              badZ    |-> badz # {},
-              minDiff |-> IF dif = {} THEN Inf ELSE Min(dif)]]
+          IN [maxBad  |-> LastBad(dd, p, hi, lo),
+              badZ    |-> \E j \in lo..hi : IF j <= Ld THEN dd[j] # p[j] ELSE p[j] # Z,
+              minDiff |-> FirstDiff(dd, p, lo, Min({hi, m}))]]
 
 (* sm = Summary(d.data, p, nold); dv = DValid(d); Ld = Len(d.data) (0 if absent);  *)
 (* n = Len(p).  Result: which record the load returns - "old", "new" or "none".    *)
